@@ -134,6 +134,7 @@ type Node struct {
 	permMode int                        // replay order of cached payloads: 0 ascending, 1 descending, 2 rotated
 	fpCache  uint64
 	fpValid  bool
+	crashed  bool // a library call panicked
 }
 
 func (n *Node) sc() *Scenario { return n.w.sc }
@@ -461,6 +462,8 @@ func (n *Node) api(what string, in *Payload, f func()) {
 				panic(hf)
 			}
 			w.violate("C11", "C11/panic/"+what, n, fmt.Sprintf("panic in %s: %v\n%s", what, r, debug.Stack()))
+			n.crashed = true // the process died: the node takes no further part
+			n.outbox = n.outbox[:0]
 		}
 	}()
 	if in != nil && n.trusted() {
